@@ -224,6 +224,40 @@ def install_fixpoint_monitor():
         sh.bound_consistency_algorithm = wrap(sh.bound_consistency_algorithm)
 
 
+SHAVE_VIOL = []
+
+
+def install_shaving_monitor():
+    """C10: every shaving pass is compared with a plain bound-consistency pass started from a copy of the same state:
+    'the domains it returns are contained in those plain bound consistency returns', same height, never consistent where plain BC fails"""
+    import nucs.solvers.consistency_algorithms as ca
+    from nucs.solvers.bound_consistency_algorithm import bound_consistency_algorithm as plain_bc
+
+    def wrap(orig):
+        def alg(statistics, algorithms, var_bounds, param_bounds, dom_indices_arr, dom_offsets_arr, props_dom_indices, props_dom_offsets, props_parameters,
+                triggers, shr_domains_stack, not_entailed_propagators_stack, dom_update_stack, stacks_top, triggered_propagators, compute_domains_addrs, decision_domains):
+            top = int(stacks_top[0])
+            c = [a.copy() for a in (statistics, shr_domains_stack, not_entailed_propagators_stack, dom_update_stack, stacks_top, triggered_propagators)]
+            ref = plain_bc(c[0], algorithms, var_bounds, param_bounds, dom_indices_arr, dom_offsets_arr, props_dom_indices, props_dom_offsets, props_parameters,
+                           triggers, c[1], c[2], c[3], c[4], c[5], compute_domains_addrs, decision_domains)
+            st = orig(statistics, algorithms, var_bounds, param_bounds, dom_indices_arr, dom_offsets_arr, props_dom_indices, props_dom_offsets, props_parameters,
+                      triggers, shr_domains_stack, not_entailed_propagators_stack, dom_update_stack, stacks_top, triggered_propagators, compute_domains_addrs, decision_domains)
+            if int(stacks_top[0]) != top:
+                SHAVE_VIOL.append(("C10.height", f"stack height {top} -> {int(stacks_top[0])}"))
+            if ref == PROBLEM_INCONSISTENT and st != PROBLEM_INCONSISTENT:
+                SHAVE_VIOL.append(("C10.weaker", "plain bound consistency fails on this state, shaving reports it consistent"))
+            if ref != PROBLEM_INCONSISTENT and st != PROBLEM_INCONSISTENT:
+                a, b = shr_domains_stack[top], c[1][top]
+                if (a[:, 0] < b[:, 0]).any() or (a[:, 1] > b[:, 1]).any():
+                    SHAVE_VIOL.append(("C10.weaker", f"shaving returns {a.tolist()}, plain bound consistency {b.tolist()}"))
+                if ref == PROBLEM_BOUND and st != PROBLEM_BOUND:
+                    SHAVE_VIOL.append(("C10.weaker", "plain bound consistency reports a solved state, shaving an open one"))
+            return st
+        return alg
+
+    ca.CONSISTENCY_ALG_FCTS[CONSISTENCY_ALG_SHAVING] = wrap(ca.CONSISTENCY_ALG_FCTS[CONSISTENCY_ALG_SHAVING])
+
+
 OBS = dict(depth=0, calls=0, entailed=0, failed=0)
 
 
@@ -259,6 +293,8 @@ def run(arg, pid, tier, seed):
         install_stats_monitor()
     if pid == "C08":
         install_fixpoint_monitor()
+    if pid == "C10":
+        install_shaving_monitor()
     rng = random.Random(seed * 7919 + 17)
     n_problems = 120 if tier == "quick" else 1500
     t_end = time.time() + (150 if tier == "quick" else 2400)
@@ -322,8 +358,25 @@ def run(arg, pid, tier, seed):
                     report("C17.inconsistency", pb, cfg, f"INCONSISTENCY_NB {st['PROPAGATOR_INCONSISTENCY_NB']} vs {OBS['failed']} executions answering inconsistent")
                 if st["SOLVER_CHOICE_DEPTH"] != OBS["depth"]:
                     report("C17.depth", pb, cfg, f"CHOICE_DEPTH {st['SOLVER_CHOICE_DEPTH']} != deepest stack level reached {OBS['depth']}")
+            if pid == "C10" and SHAVE_VIOL:
+                c, d = SHAVE_VIOL[0]
+                report(c, pb, cfg, d)
+                del SHAVE_VIOL[:]
             if pid == "C10" and int(s.stacks_top[0]) != 0:
                 report("C10.height", pb, cfg, f"stack height {int(s.stacks_top[0])} after exhaustive enumeration")
+            if pid == "C10" and cfg[0] != CONSISTENCY_ALG_BC:
+                # small choice-point stacks reach the states where shaving has no free level for a probe; only the pass monitor judges these runs
+                # (an overflow of the search itself is a resource matter: shaving changes the shape of the tree, so it is not compared with plain BC)
+                for h in (3, 4, 5):
+                    ev += 1
+                    try:
+                        guarded(lambda: sols(solver(pb, cfg, height=h)))
+                    except Exception:  # noqa
+                        pass
+                    if SHAVE_VIOL:
+                        c, d = SHAVE_VIOL[0]
+                        report(c, pb, cfg, f"stack_max_height={h}: {d}")
+                        del SHAVE_VIOL[:]
         if pid == "C01":
             # what minimize / maximize return is a solution too (the restart between two improvements re-arms the whole engine state)
             for v in range(len(pb["idx"])):
